@@ -492,7 +492,7 @@ func runEngine(rec *recorder, sc *Scenario) error {
 		}
 		time.Sleep(time.Millisecond)
 	}
-	for i := 0; i < 9000 && atomic.LoadInt64(&s.ovOpen) > 0; i++ {
+	for i := 0; i < 12000 && atomic.LoadInt64(&s.ovOpen) > 0; i++ {
 		time.Sleep(time.Millisecond)
 	}
 	time.Sleep(2 * time.Millisecond)
